@@ -102,7 +102,7 @@ RE_META = re.compile(
 )
 
 RE_ENCODING = re.compile(
-    br'encoding\s*=\s*(?:"|\')(?P<encoding>[\w\-]+)(?:"|\')',
+    br'encoding\s*=\s*(?:"|\')(?P<encoding>[\w.\-]+)(?:"|\')',
     re.IGNORECASE
 )
 
